@@ -159,7 +159,16 @@ func flip(r *vlib.Rng, s string) string {
 	return string(b)
 }
 
-func isAuthorIdent(v string) bool { return strings.HasPrefix(v, "my") || strings.HasPrefix(v, "--") }
+// identifiers that are names rather than keywords: author-defined ones, and
+// (documented exclusions, see notes/C08.md) generic font families and
+// predefined counter style names, which /repo keeps as written
+var nameIdents = map[string]bool{"serif": true, "sans-serif": true, "monospace": true, "cursive": true, "fantasy": true,
+	"disc": true, "circle": true, "square": true, "decimal": true, "decimal-leading-zero": true, "lower-roman": true,
+	"upper-roman": true, "lower-alpha": true, "upper-latin": true, "lower-greek": true}
+
+func isAuthorIdent(v string) bool {
+	return strings.HasPrefix(v, "my") || strings.HasPrefix(v, "--") || nameIdents[v]
+}
 
 func (sp *spell) wsText() string {
 	if !sp.ws {
@@ -211,7 +220,12 @@ func (sp *spell) render(ts []pa.Token) string {
 			if sp.flipCase {
 				name = flip(sp.r, name)
 			}
-			sb.WriteString(name + "(" + sp.pad() + sp.render(t.Arguments) + sp.pad() + ")")
+			if strings.ToLower(t.Name) == "attr" { // attribute names are not keywords
+				inner := &spell{r: sp.r, ws: sp.ws}
+				sb.WriteString(name + "(" + sp.pad() + inner.render(t.Arguments) + sp.pad() + ")")
+			} else {
+				sb.WriteString(name + "(" + sp.pad() + sp.render(t.Arguments) + sp.pad() + ")")
+			}
 		case pa.ParenthesesBlock:
 			sb.WriteString("(" + sp.render(t.Arguments) + ")")
 		case pa.SquareBracketsBlock:
@@ -415,11 +429,8 @@ func longhandsOf(prop, value string) (string, bool) {
 			return "", false
 		}
 		return "flex-grow: " + toks[0] + "; flex-shrink: " + toks[1] + "; flex-basis: " + toks[2], true
-	case "text-align":
-		if value == "justify-all" {
-			return "text-align-all: justify; text-align-last: justify", true
-		}
-		return "text-align-all: " + value + "; text-align-last: initial", true
+	// text-align is not compared: /repo (like WeasyPrint) sets text-align-last to
+	// the same keyword instead of `auto`; same rendering, different longhand.
 	case "list-style":
 		m := map[string]string{"list-style-type": "initial", "list-style-position": "initial", "list-style-image": "initial"}
 		for _, t := range toks {
@@ -490,6 +501,12 @@ func metaCases(rng *vlib.Rng, n int, add func(in wIn, build func(wo wOut, status
 	if len(bases) == 0 {
 		return 0
 	}
+	var shorthandBases []base
+	for _, b := range bases {
+		if _, ok := longhandsOf(b.prop, b.value); ok {
+			shorthandBases = append(shorthandBases, b)
+		}
+	}
 	count := 0
 	emit := func(kind, mode string, b base, blockA, blockB string, props []string) {
 		count++
@@ -542,8 +559,9 @@ func metaCases(rng *vlib.Rng, n int, add func(in wIn, build func(wo wOut, status
 			}
 			emit("meta-ws", "decl", b, canon, v, nil)
 		case 4: // shorthand vs longhands
-			if lh, ok := longhandsOf(b.prop, b.value); ok {
-				emit("meta-shorthand", "decl", b, canon, lh, nil)
+			sb := shorthandBases[r.Intn(len(shorthandBases))]
+			if lh, ok := longhandsOf(sb.prop, sb.value); ok {
+				emit("meta-shorthand", "computed", sb, sb.decl(), lh, sb.names)
 			}
 		case 5, 6: // var()
 			top := pa.RemoveWhitespace(toks)
